@@ -241,7 +241,7 @@ impl Prop for C05 {
             flushes: vec![],
             buffered: false,
             gate_calls: vec![],
-            trace: false,
+            trace: rng.chance(1, 8),
             inbound,
             reads,
             writes,
@@ -301,6 +301,18 @@ impl Prop for C05 {
     }
     fn preludes(&self, sc: &StreamScenario) -> Vec<StreamScenario> {
         crate::streamprop::stream_preludes(sc)
+    }
+
+    fn repro_variants(&self, sc: &StreamScenario) -> Vec<StreamScenario> {
+        // tracing keeps a process-wide callsite cache: a case found with `trace: false` while
+        // another worker had a subscriber reproduces on its own only with `trace: true`
+        if sc.trace {
+            vec![]
+        } else {
+            let mut v = sc.clone();
+            v.trace = true;
+            vec![v]
+        }
     }
 
     fn rule(&self) -> String {
